@@ -130,7 +130,8 @@ func genC04Program(t *rapid.T) *c04Program {
 func c04Run(t interface{ Fatalf(string, ...any) }, p *c04Program) (alternations int, bigEntry bool) {
 	old := runtime.GOMAXPROCS(p.Procs)
 	defer runtime.GOMAXPROCS(old)
-	jcfg := zapcore.EncoderConfig{MessageKey: "m"}
+	// metadata columns that differ per goroutine (logger name) and per front end (level)
+	jcfg := zapcore.EncoderConfig{NameKey: "n", LevelKey: "l", MessageKey: "m", EncodeLevel: zapcore.CapitalLevelEncoder}
 	var streams []*c04Stream
 	var core zapcore.Core
 	var closers []func()
@@ -189,7 +190,7 @@ func c04Run(t interface{ Fatalf(string, ...any) }, p *c04Program) (alternations 
 					panics.Store(fmt.Sprintf("goroutine %d panicked: %v", g, r))
 				}
 			}()
-			mine := shared.With(zap.Int("g", g))
+			mine := shared.Named(fmt.Sprintf("g%d", g)).With(zap.Int("g", g))
 			sg := mine.Sugar()
 			std := zap.NewStdLog(mine)
 			zw := &zapio.Writer{Log: mine, Level: zapcore.WarnLevel}
@@ -201,7 +202,7 @@ func c04Run(t interface{ Fatalf(string, ...any) }, p *c04Program) (alternations 
 				case "info":
 					mine.Info(tok, zap.Int("seq", seq))
 				case "log":
-					lg.Log(zapcore.ErrorLevel, tok, zap.Int("g", g), zap.Int("seq", seq))
+					lg.Named(fmt.Sprintf("g%d", g)).Log(zapcore.ErrorLevel, tok, zap.Int("g", g), zap.Int("seq", seq))
 				case "check":
 					if ce := mine.Check(zapcore.WarnLevel, tok); ce != nil {
 						ce.Write(zap.Int("seq", seq), zap.Namespace("ns"), zap.Int("in", 1))
@@ -284,13 +285,15 @@ func c04Run(t interface{ Fatalf(string, ...any) }, p *c04Program) (alternations 
 		lastG := -1
 		for li, ln := range lines[:len(lines)-1] {
 			var msg string
+			var name, level string
 			if st.console {
-				i := bytes.IndexByte(ln, '\t')
-				if i < 0 {
-					msg = string(ln)
-				} else {
-					msg = string(ln[:i])
-					if why, _ := checkJSONLine(ln[i+1:], ""); why != "" {
+				cols := strings.SplitN(string(ln), "\t", 4)
+				if len(cols) < 3 {
+					t.Fatalf("%s: line %d does not have level, name and message columns: %q", st.name, li, clipS(string(ln)))
+				}
+				level, name, msg = cols[0], cols[1], cols[2]
+				if len(cols) == 4 {
+					if why, _ := checkJSONLine([]byte(cols[3]), ""); why != "" {
 						t.Fatalf("%s: line %d: console context corrupted: %s: %q", st.name, li, why, clipS(string(ln)))
 					}
 				}
@@ -299,16 +302,30 @@ func c04Run(t interface{ Fatalf(string, ...any) }, p *c04Program) (alternations 
 				if why != "" {
 					t.Fatalf("%s: line %d is not one intact JSON object (torn, merged or interleaved): %s: %q", st.name, li, why, clipS(string(ln)))
 				}
-				if len(n.kids) == 0 || n.kids[0].k != "m" {
-					t.Fatalf("%s: line %d lacks the message: %q", st.name, li, clipS(string(ln)))
+				for _, kv := range n.kids {
+					switch kv.k {
+					case "m":
+						msg = kv.v.s
+					case "n":
+						name = kv.v.s
+					case "l":
+						level = kv.v.s
+					}
 				}
-				msg = n.kids[0].v.s
 				for _, kv := range n.kids {
 					if kv.k == "g" && kv.v.kind == "num" {
 						if g, _, err := c04ParseToken(msg); err == nil && strconv.Itoa(g) != kv.v.s {
 							t.Fatalf("%s: line %d: fields of goroutine %s on the entry of goroutine %d: %q", st.name, li, kv.v.s, g, clipS(string(ln)))
 						}
 					}
+				}
+			}
+			if g, _, err := c04ParseToken(msg); err == nil {
+				if !strings.HasPrefix(name, fmt.Sprintf("g%d", g)) {
+					t.Fatalf("%s: line %d: entry of goroutine %d carries logger name %q (metadata of another entry)", st.name, li, g, name)
+				}
+				if level != "INFO" && level != "WARN" && level != "ERROR" {
+					t.Fatalf("%s: line %d: level column %q", st.name, li, level)
 				}
 			}
 			g, seq, err := c04ParseToken(msg)
